@@ -140,8 +140,15 @@ def r11_3(ctx: Ctx) -> None:
               f"_write_header passes encrypted={kw.get('encrypted')}, encoded={kw.get('encoded')} instead of the session's flags")
     h = ctx.prog.func("archiveinfo", "Header.write")
     top = [n for n in h.node.body if isinstance(n, ast.If)]
-    ok = bool(top) and norm(top[0].test) == "encrypted" and any(norm(s.value).endswith("ENCRYPTED_HEADER_FILTER") for s in top[0].body if isinstance(s, ast.Assign)) and \
-        any(isinstance(c, ast.Call) and attr_tail(c) == "_encode_header" and any(norm(a) == "filters" for a in c.args) for s in top[0].body for c in ast.walk(s))
+    # whenever `encrypted` holds the chain handed to _encode_header is the AES one: every assignment of the plain chain to the name that goes into
+    # _encode_header stands under `encrypted` false, the AES chain is assigned under `encrypted` true, and (below) raw bytes need both flags off
+    enc_calls = [c for c in q.calls(h) if attr_tail(c) == "_encode_header"]
+    argn = {a.id for c in enc_calls for a in c.args if isinstance(a, ast.Name)}
+    plain = [n for n in walk(h.node) if isinstance(n, ast.Assign) and isinstance(n.targets[0], ast.Name) and n.targets[0].id in argn and norm(n.value).endswith("ENCODED_HEADER_FILTER")]
+    aes = [n for n in walk(h.node) if isinstance(n, ast.Assign) and isinstance(n.targets[0], ast.Name) and n.targets[0].id in argn and norm(n.value).endswith("ENCRYPTED_HEADER_FILTER")]
+    ok = bool(enc_calls) and bool(aes) and all(("encrypted", False) in [(norm(cd), pol) for cd, pol in q.facts_at(h, n)] for n in plain) and \
+        all(("encrypted", True) in [(norm(cd), pol) for cd, pol in q.facts_at(h, n)] for n in aes) and \
+        not any(norm(a).endswith("ENCODED_HEADER_FILTER") and ("encrypted", False) not in [(norm(cd), pol) for cd, pol in q.facts_at(h, c)] for c in enc_calls for a in c.args)
     ctx.check(ok, "R11.3", h, top[0] if top else h.node, "encrypted arm is tested first and encodes with the AES header filter",
               "Header.write does not test `encrypted` first and encode with ENCRYPTED_HEADER_FILTER (an 'encoded' arm taken first would write the names unencrypted)", construct="Header.write encrypted arm")
     # raw bytes only in the last arm
